@@ -1022,20 +1022,20 @@ V(id='c38-benign-new-instance-cache', prop='C38', file='mpmath/functions/functio
 
 # ---------------------------------------------------------------- C29 -------
 V(id='c29-verify-scaled-tol', prop='C29', file='mpmath/calculus/optimization.py',
-  old="        if verify and norm(f(*xl))**2 > tol: # TODO: better condition?",
-  new="        if verify and norm(f(*xl))**2 > tol * max(1, norm(x)):",
+  old="        if verify and not norm(f(*xl))**2 <= tol: # TODO: better condition?",
+  new="        if verify and not norm(f(*xl))**2 <= tol * max(1, norm(x)):",
   expect='fire:R-R1:findroot')
 V(id='c29-verify-unsquared', prop='C29', file='mpmath/calculus/optimization.py',
-  old="        if verify and norm(f(*xl))**2 > tol: # TODO: better condition?",
-  new="        if verify and norm(f(*xl)) > tol:",
+  old="        if verify and not norm(f(*xl))**2 <= tol: # TODO: better condition?",
+  new="        if verify and not norm(f(*xl)) <= tol:",
   expect='fire:R-R1:findroot')
 V(id='c29-verify-extra-condition', prop='C29', file='mpmath/calculus/optimization.py',
-  old="        if verify and norm(f(*xl))**2 > tol: # TODO: better condition?",
-  new="        if verify and i < maxsteps and norm(f(*xl))**2 > tol:",
+  old="        if verify and not norm(f(*xl))**2 <= tol: # TODO: better condition?",
+  new="        if verify and i < maxsteps and not norm(f(*xl))**2 <= tol:",
   expect='fire:R-R1:findroot')
 V(id='c29-verify-wrong-point', prop='C29', file='mpmath/calculus/optimization.py',
-  old="        if verify and norm(f(*xl))**2 > tol: # TODO: better condition?",
-  new="        if verify and norm(f(*x0))**2 > tol:",
+  old="        if verify and not norm(f(*xl))**2 <= tol: # TODO: better condition?",
+  new="        if verify and not norm(f(*x0))**2 <= tol:",
   expect='fire:R-R1:findroot')
 V(id='c29-verify-default-off', prop='C29', file='mpmath/calculus/optimization.py',
   old="def findroot(ctx, f, x0, solver='secant', tol=None, verbose=False, verify=True, **kwargs):",
@@ -1083,12 +1083,12 @@ V(id='c29-benign-anderson-ifexp', prop='C29', file='mpmath/calculus/optimization
   new="            m = 1 - fz/fb\n            return m if m > 0 else 0.5",
   expect='silent')
 V(id='c29-benign-residual-temp', prop='C29', file='mpmath/calculus/optimization.py',
-  old="        if verify and norm(f(*xl))**2 > tol: # TODO: better condition?",
-  new="        residual = norm(f(*xl))**2\n        if verify and residual > tol:",
+  old="        if verify and not norm(f(*xl))**2 <= tol: # TODO: better condition?",
+  new="        residual = norm(f(*xl))**2\n        if verify and not residual <= tol:",
   expect='silent')
 V(id='c29-benign-gate-reversed-compare', prop='C29', file='mpmath/calculus/optimization.py',
-  old="        if verify and norm(f(*xl))**2 > tol: # TODO: better condition?",
-  new="        if verify and not (norm(f(*xl))**2 <= tol):",
+  old="        if verify and not norm(f(*xl))**2 <= tol: # TODO: better condition?",
+  new="        if verify and not (tol >= norm(f(*xl))**2):",
   expect='silent')
 V(id='c29-benign-bisection-sign-call', prop='C29', file='mpmath/calculus/optimization.py',
   old="            sign = fm * fb", new="            sign = self.ctx.sign(fm) * self.ctx.sign(fb)",
@@ -1761,3 +1761,31 @@ V(id='c35-null-relation-printed', prop='C35', file='mpmath/identification.py',
 V(id='c35-linear-formula-unparenthesised', prop='C35', file='mpmath/identification.py',
   old="    if '+' in s or '*' in s:\n        s = '(' + s + ')'\n    return s or '0'", new="    return s or '0'",
   expect='fire:Q-R5:pslqstring')
+
+# ---- C29 R-R4, R-R5, R-P3, R-M1, nan-safe R-R1 (fixes 47628a8 .. e44e6cd) ----
+V(id='c29-d2f-reads-df', prop='C29', file='mpmath/calculus/optimization.py',
+  old="            d2f = kwargs['d2f']\n        self.d2f = d2f\n\n    def __iter__(self):\n        x = self.x0\n        f = self.f\n        df = self.df\n        d2f = self.d2f\n        while True:\n            prevx = x\n            fx = f(x)\n            if fx == 0:",
+  new="            d2f = kwargs['df']\n        self.d2f = d2f\n\n    def __iter__(self):\n        x = self.x0\n        f = self.f\n        df = self.df\n        d2f = self.d2f\n        while True:\n            prevx = x\n            fx = f(x)\n            if fx == 0:",
+  expect='fire:R-R4:MNewton.__init__')
+V(id='c29-verify-nan-passes', prop='C29', file='mpmath/calculus/optimization.py',
+  old="        if verify and not norm(f(*xl))**2 <= tol:", new="        if verify and norm(f(*xl))**2 > tol:",
+  expect='fire:R-R1:findroot')
+V(id='c29-mnewton-unguarded-division', prop='C29', file='mpmath/calculus/optimization.py',
+  old="            if dfx == 0:\n                # stationary point: near a multiple root, f is down to\n                # rounding noise and x cannot be improved\n                break\n",
+  new="", expect='fire:R-R5:MNewton.__iter__')
+V(id='c29-multiplicity-last-index', prop='C29', file='mpmath/calculus/optimization.py',
+  old="    else:\n        # all maxsteps derivatives vanish\n        i = maxsteps\n    return i", new="    return i",
+  expect='fire:R-M1:multiplicity')
+V(id='c29-polyroots-exact-sort', prop='C29', file='mpmath/calculus/polynomials.py',
+  old="        order = sorted(range(deg), key=lambda i: (imrank[i], rerank[i],\n            abs(ctx._im(roots[i])), ctx._re(roots[i])))",
+  new="        order = sorted(range(deg), key=lambda i: (abs(ctx._im(roots[i])), ctx._re(roots[i])))",
+  expect='fire:R-P3:polyroots')
+V(id='c29-polyroots-ranks-swapped', prop='C29', file='mpmath/calculus/polynomials.py',
+  old="key=lambda i: (imrank[i], rerank[i],", new="key=lambda i: (rerank[i], imrank[i],",
+  expect='fire:R-P3:polyroots')
+V(id='c29-polyroots-order-filters', prop='C29', file='mpmath/calculus/polynomials.py',
+  old="        roots = [roots[i] for i in order]", new="        roots = [roots[i] for i in order if roots[i] is not None]",
+  expect='fire:R-P1:polyroots')
+V(id='c29-verify-benign-swapped-operands', prop='C29', file='mpmath/calculus/optimization.py',
+  old="        if verify and not norm(f(*xl))**2 <= tol:", new="        if verify and not tol >= norm(f(*xl))**2:",
+  expect='silent')
